@@ -7,11 +7,13 @@ package c04
 
 import (
 	"context"
+	"database/sql"
 	"encoding/json"
 	"fmt"
 	"regexp"
 	"sort"
 	"strings"
+	"verifharness/lib/fakemysql"
 
 	"ariga.io/atlas/sql/migrate"
 	"ariga.io/atlas/sql/mysql"
@@ -46,6 +48,22 @@ type dialect struct {
 var dialects = map[string]dialect{
 	"mysql":    {"mysql", mysql.DefaultDiff, mysql.DefaultPlan},
 	"postgres": {"postgres", postgres.DefaultDiff, postgres.DefaultPlan},
+}
+
+// The connected MySQL driver in its TiDB and MariaDB flavours (mysql.Open on a connection that only
+// answers the version query, lib/fakemysql): TiDB has a planner of its own (sql/mysql/tidb.go).
+func init() {
+	for _, fl := range []string{"tidb", "mariadb"} {
+		db, err := sql.Open(fakemysql.DriverName, fakemysql.Versions[fl])
+		if err != nil {
+			panic(err)
+		}
+		drv, err := mysql.Open(db)
+		if err != nil {
+			panic(err)
+		}
+		dialects[fl] = dialect{fl, drv, drv}
+	}
 }
 
 // withRepoint adds column rr and the foreign key fkre_<child> -> parent to a built schema.
@@ -107,7 +125,7 @@ func (c *cat) dropCol(child, col string) string {
 	}
 	k := child + ".fk_" + strings.TrimPrefix(child, "t") + "_" + strings.TrimPrefix(col, "r")
 	if _, ok := c.fks[k]; ok {
-		if c.dialect == "mysql" {
+		if c.dialect != "postgres" {
 			return fmt.Sprintf("drop-column-in-fk: column %s.%s dropped while fk %s still uses it", child, col, k)
 		}
 		delete(c.fks, k)
@@ -486,7 +504,10 @@ func run(c *rt.Ctx) {
 				return
 			}
 		}
-		for _, d := range []string{"mysql", "postgres"} {
+		for _, d := range []string{"mysql", "postgres", "tidb", "mariadb"} {
+			if (d == "tidb" || d == "mariadb") && n == 3 && (g+uint64(len(cases)))%3 != 0 {
+				continue // the flavours share everything but the planner front: a third of the 3-table core
+			}
 			// every plan mode that promises dependency order (the unsorted dump does not, by name)
 			for _, mode := range []int{0, int(migrate.PlanModeInPlace), int(migrate.PlanModeDeferred), int(migrate.PlanModeDump)} {
 				cs.Dialect, cs.Mode = d, mode
@@ -571,7 +592,7 @@ func run(c *rt.Ctx) {
 		}
 		if why != "" {
 			j := strings.Index(why, ":")
-			c.Violation(cs.Dialect+"|"+why[:j], strings.TrimSpace(why[j+1:]), cs, map[string]any{"plan": cmds, "changes": nch})
+			c.Violation(keyOf(cs, why[:j]), strings.TrimSpace(why[j+1:]), cs, map[string]any{"plan": cmds, "changes": nch})
 			return
 		}
 		if len(cmds) >= 5 && hasCycle(cs) && c.WantSample() {
@@ -580,6 +601,15 @@ func run(c *rt.Ctx) {
 	})
 	c.Finish("all FK digraphs with self loops over n ≤ 3 tables × all 3^n splits (created/dropped/kept) × kept-kept edge added/dropped × {FK dropped alone, FK dropped together with its column} (exhaustive), n = 4 sampled (quick) or all 65 536 graphs × {create-all, drop-all, 10 seeded splits} (thorough), random sparse graphs n = 5..8; × {MySQL, PostgreSQL} × plan mode {unset, in-place, deferred, dump}. The real differ's change set is planned by the real planner and the plan is replayed in order, once via Source changes and once via the statement text, on a reference catalogue: FK target must exist (or be the table itself), no table dropped while a live foreign FK points at it, each table created/dropped exactly once, final catalogue == desired, no planning error. distinct = distinct multi-statement plan texts",
 		map[string]any{"exhaustive_core_cases": exh3, "exhaustive": false})
+}
+
+// keyOf is the finding key: dialect, class, and the case family when it is not the base one.
+func keyOf(cs Case, class string) string {
+	k := cs.Dialect + "|" + class
+	if cs.Repoint != nil {
+		k += "|repointed-fk"
+	}
+	return k
 }
 
 func hasCycle(cs Case) bool {
@@ -621,7 +651,7 @@ func init() {
 		}
 		if why != "" {
 			j := strings.Index(why, ":")
-			c.Violation(cs.Dialect+"|"+why[:j], why[j+1:], cs, map[string]any{"plan": cmds})
+			c.Violation(keyOf(cs, why[:j]), why[j+1:], cs, map[string]any{"plan": cmds})
 			fmt.Println("VIOLATED:", why)
 		} else {
 			fmt.Println("held")
